@@ -77,6 +77,18 @@ impl<F: Float + SampleUniform + std::fmt::Debug, D: Hash + Copy, H: Hasher + Def
     /// Reinitialize minhasher, keeping size of sketches.  
     /// OptMinDens is reinitialized and can be used again to sketch a new slice
     /// This methods puts an end to sketching a slice of data and resets all counters, required before sketching a new slice of data
+    /// verification hook : clones of (float values, hashes, populated flags, number of empty bins); usable before end_sketch
+    #[cfg(probminhash_verif)]
+    #[allow(clippy::type_complexity)]
+    pub fn verif_state(&self) -> (Vec<F>, Vec<u64>, Vec<bool>, i64) {
+        (
+            self.hsketch.clone(),
+            self.values.clone(),
+            self.init.clone(),
+            self.nb_empty,
+        )
+    }
+
     pub fn reinit(&mut self) {
         let size = self.hsketch.len();
         let large: F = F::from(u32::MAX).unwrap();
@@ -193,6 +205,8 @@ impl<F: Float + SampleUniform + std::fmt::Debug, D: Hash + Copy, H: Hasher + Def
                 // change hash function for each, item. rng has no loop at expected horizon and provides independance so we get universal hash function
                 let mut rng2 = ChaCha12Rng::seed_from_u64(k as u64 + 123743);
                 loop {
+                    #[cfg(probminhash_verif)]
+                    crate::verif::tick();
                     // we search a non empty bin to fill slot k
                     let j: usize = inrange.sample(&mut rng2);
                     if self.init[j] {
@@ -266,6 +280,18 @@ impl<F: Float + SampleUniform + std::fmt::Debug, D: Hash + Copy, H: Hasher + Def
 
     /// Reinitialize minhasher, keeping size of sketches.  
     /// This methods puts an end to sketching a slice of data and resets all counters.
+    /// verification hook : clones of (float values, hashes, populated flags, number of empty bins); usable before end_sketch
+    #[cfg(probminhash_verif)]
+    #[allow(clippy::type_complexity)]
+    pub fn verif_state(&self) -> (Vec<F>, Vec<u64>, Vec<bool>, i64) {
+        (
+            self.hsketch.clone(),
+            self.values.clone(),
+            self.init.clone(),
+            self.nb_empty,
+        )
+    }
+
     pub fn reinit(&mut self) {
         let size = self.hsketch.len();
         let large: F = F::from(u32::MAX).unwrap();
@@ -363,6 +389,8 @@ impl<F: Float + SampleUniform + std::fmt::Debug, D: Hash + Copy, H: Hasher + Def
         let mut pass: u64 = 1;
         while self.nb_empty > 0 {
             for k in 0..m {
+                #[cfg(probminhash_verif)]
+                crate::verif::tick();
                 if self.init[k] {
                     let mut rng2 =
                         ChaCha12Rng::seed_from_u64((k as u64 + 1) * m as u64 + pass + 253713);
